@@ -1268,3 +1268,61 @@ def run_case_flag(P, rep, rule="R-CASEFLAG"):
             rep.ok(rule, site, P.where(fn, fn.blocks[ups[0]]["t"].get("line")), "the arm upper-cases its output under the case flag")
         else:
             rep.viol(rule, site, P.where(fn), "the %s arm never applies the case flag: `^`/`#` are ignored for this class of directives" % want)
+
+
+# ---------------------------------------------------------------------------------------
+# R-STRKIND: first/last of a string is a string, also when the string is empty
+
+def run_first_last_kind(P, rep, rule="R-STRKIND"):
+    """FirstFilter / LastFilter: in the branch selected by `input.as_scalar()` being Some the result is always `Value::scalar(..)`;
+    `Value::Nil` is built only in the array branch (an empty string gives "", which the next string filter accepts)."""
+    for ty in ("FirstFilter", "LastFilter"):
+        fn = P.fn_by_key("<liquid_lib::stdlib::filters::array::%s as liquid_core::parser::filter::Filter>::evaluate" % ty)
+        site = ty.replace("Filter", "").lower() + " string branch"
+        probes = [(bi, t) for bi, t in P.calls(fn) if t.get("f") and t["f"]["id"].endswith("ValueView::as_scalar")]
+        if len(probes) != 1:
+            rep.viol(rule, site, P.where(fn), "expected one as_scalar() probe, found %d" % len(probes))
+            continue
+        bi, t = probes[0]
+        d = t["d"][0]
+        some = none = None
+        cur = t["t"]
+        for _ in range(6):
+            b = fn.blocks[cur]
+            tt = b["t"]
+            if tt["k"] == "switch":
+                ol = op_local(tt["o"])
+                if any(st[0] == "a" and ol and st[1][0] == ol[0] and st[2]["k"] == "discr" and st[2]["p"][0] == d for st in b["s"]):
+                    some = [x for v, x in tt["t"] if v == 1] or [tt["else"]]
+                    none = [x for v, x in tt["t"] if v == 0] or [tt["else"]]
+                break
+            cur = tt.get("t") if tt["k"] in ("goto", "drop") else None
+            if cur is None:
+                break
+        if some is None:
+            rep.viol(rule, site, P.where(fn), "no branch on the as_scalar() probe")
+            continue
+        region = P.reach(fn, some) - P.reach(fn, none)
+        bodies = [(fn, region)]
+        for b2 in region:
+            for st in fn.blocks[b2]["s"]:
+                if st[0] == "a" and st[2]["k"] == "agg" and st[2].get("ak") == "closure" and st[2]["id"] in P.fns:
+                    c = P.fns[st[2]["id"]]
+                    bodies.append((c, set(range(len(c.blocks)))))
+        nils = []
+        scal = 0
+        for body, reg in bodies:
+            for b2 in reg:
+                for st in body.blocks[b2]["s"]:
+                    if st[0] == "a" and st[2]["k"] == "agg" and st[2].get("id", "").endswith("values::Value") and st[2].get("vname") != "Scalar":
+                        nils.append((body, st[3] if len(st) > 3 else body.line, st[2].get("vname")))
+                tt = body.blocks[b2]["t"]
+                if tt["k"] == "call" and tt.get("f") and tt["f"]["name"].endswith("Value::scalar"):
+                    scal += 1
+        if nils:
+            body, line, vn = nils[0]
+            rep.viol(rule, site, P.where(body, line), "the string branch can produce Value::%s: `first`/`last` of an empty string is no longer a string" % vn)
+        elif not scal:
+            rep.viol(rule, site, P.where(fn), "the string branch does not build its result with Value::scalar")
+        else:
+            rep.ok(rule, site, P.where(fn), "string branch always yields Value::scalar(..)")
